@@ -80,3 +80,31 @@ Proof.
   - intros i _. reflexivity.
   - intros i j _ _. reflexivity.
 Qed.
+
+(* The documented matrices are symplectic (S Omega S^T = Omega under the same congruence used in C01): together with
+   C01_gauss_<op>_is_phase_space this gives  V' + i Omega = S (V + i Omega) S^T  for the unitary Gaussian gates, i.e. the
+   uncertainty relation is transported by a congruence.  (Positivity itself needs an ordered field: search only.) *)
+From SFV Require Import Base.PhaseSpace C07.Symplectic.
+Local Open Scope nat_scope.
+Section Symplectic.
+Variable K : Type.
+Variables (k0 k1 : K) (kadd kmul ksub : K -> K -> K) (kopp : K -> K).
+Hypothesis Kring : ring_theory k0 k1 kadd kmul ksub kopp (@eq K).
+Notation NKs := (Symplectic.NK K k0 k1 kadd kmul ksub kopp).
+Notation Om := (Omega K k0 k1 kopp).
+
+Theorem C07_gauss_symplectic_rotation : forall c s k q1 q2 a b, kmul c c = ksub k1 (kmul s s) ->
+  congr NKs (S_rot NKs c s) [k] Om q1 q2 a b = Om q1 q2 a b.
+Proof. exact (rot_symplectic K k0 k1 kadd kmul ksub kopp Kring). Qed.
+Theorem C07_gauss_symplectic_squeeze : forall c s sh ch k q1 q2 a b,
+  kmul c c = ksub k1 (kmul s s) -> kmul ch ch = kadd k1 (kmul sh sh) ->
+  congr NKs (S_sq NKs c s sh ch) [k] Om q1 q2 a b = Om q1 q2 a b.
+Proof. exact (sq_symplectic K k0 k1 kadd kmul ksub kopp Kring). Qed.
+Theorem C07_gauss_symplectic_beamsplitter : forall er ei sn cs k l q1 q2 a b, k <> l ->
+  kmul er er = ksub k1 (kmul ei ei) -> kmul cs cs = ksub k1 (kmul sn sn) ->
+  congr NKs (S_bs NKs er ei sn cs k l) [k; l] Om q1 q2 a b = Om q1 q2 a b.
+Proof. exact (bs_symplectic K k0 k1 kadd kmul ksub kopp Kring). Qed.
+End Symplectic.
+Print Assumptions C07_gauss_symplectic_rotation.
+Print Assumptions C07_gauss_symplectic_squeeze.
+Print Assumptions C07_gauss_symplectic_beamsplitter.
